@@ -1503,6 +1503,19 @@ func Program(rt *rapid.T, p Profile) (*oracle.Program, *Meta) {
 		fmt.Fprintf(&top, "var gm = map[string]int{\"k1\": 1}\n")
 		g.globals = append(g.globals, &Var{Name: "gm", T: &Ty{K: "map", Key: "string", Elem: tInt}, Global: true})
 	}
+	// initialisers whose order is observable: each notes its name in a log as it runs (declaration order, here and in Go:
+	// none of them refers to a later one)
+	noteLog := false
+	if rx.Chance(rt, "initnotes", 1, 2) {
+		noteLog = true
+		g.meta.feat("initnotes")
+		top.WriteString("var initLog string\n")
+		for i, k := 0, rx.Range(rt, "nnotes", 2, 4); i < k; i++ {
+			fmt.Fprintf(&top, "var n%d int = note(\"n%d\", %d)\n", i, i, rx.Range(rt, "noteval", 1, 9))
+			g.globals = append(g.globals, &Var{Name: fmt.Sprintf("n%d", i), T: tInt, Global: true, ReadOnly: true})
+		}
+		top.WriteString("\nfunc note(s string, v int) int {\n\tinitLog += s + \";\"\n\treturn v + len(initLog)\n}\n")
+	}
 	top.WriteString("\n")
 	top.WriteString("func idx(i int, n int) int {\n\tif n <= 0 {\n\t\treturn 0\n\t}\n\ti = i % n\n\tif i < 0 {\n\t\ti += n\n\t}\n\treturn i\n}\n\n")
 	// functions of increasing level
@@ -1547,6 +1560,9 @@ func Program(rt *rapid.T, p Profile) (*oracle.Program, *Meta) {
 	g.depth = 0
 	g.curFn = nil
 	g.line("fmt.Println(\"start\", CA, CB, CC, limit)")
+	if noteLog {
+		g.line("fmt.Println(\"notes\", initLog)")
+	}
 	if localFn != "" {
 		g.line("fmt.Println(\"local\", localType(bi))")
 	}
